@@ -176,6 +176,13 @@ func VerifC03_Claim() {
 		verifAssert(esc1.Cmp(esc0) == 0 && verifSub(to1, to0).Cmp(a) == 0 && verifSub(sup1, sup0).Cmp(a) == 0, "incoming transfer: exactly the amount is minted to the recipient")
 		verifAssert(verifSub(s0.IncomingSupply.Amount.BigInt(), s1.IncomingSupply.Amount.BigInt()).Cmp(a) == 0 && verifSub(s1.CurrentSupply.Amount.BigInt(), s0.CurrentSupply.Amount.BigInt()).Cmp(a) == 0, "incoming counter moves to current")
 		verifAssert(s1.CurrentSupply.Amount.BigInt().Cmp(e.asset.SupplyLimit.Limit.BigInt()) <= 0, "H6 current never exceeds the limit")
+		if e.asset.SupplyLimit.TimeLimited {
+			verifAssert(verifSub(s1.TimeLimitedCurrentSupply.Amount.BigInt(), s0.TimeLimitedCurrentSupply.Amount.BigInt()).Cmp(a) == 0, "amount completed in the period grows by the claimed amount")
+			verifAssert(s1.TimeLimitedCurrentSupply.Amount.BigInt().Cmp(e.asset.SupplyLimit.TimeBasedLimit.BigInt()) <= 0, "amount completed in one period never exceeds the time-based limit")
+		} else {
+			verifAssert(s1.TimeLimitedCurrentSupply.Amount.Equal(s0.TimeLimitedCurrentSupply.Amount), "period counter untouched for an asset without a time-based limit")
+		}
+		verifAssert(s1.TimeElapsed == s0.TimeElapsed, "a claim does not move the period clock")
 	case sh.dir == types.Outgoing:
 		verifAssert(verifSub(esc0, esc1).Cmp(a) == 0 && verifSub(sup0, sup1).Cmp(a) == 0, "outgoing transfer: exactly the amount is burned from escrow")
 		verifAssert(verifSub(s0.OutgoingSupply.Amount.BigInt(), s1.OutgoingSupply.Amount.BigInt()).Cmp(a) == 0 && verifSub(s0.CurrentSupply.Amount.BigInt(), s1.CurrentSupply.Amount.BigInt()).Cmp(a) == 0, "outgoing and current counters fall together")
@@ -243,6 +250,10 @@ func VerifC04_Create() {
 		if sh.dir == types.Incoming {
 			verifAssert(verifSub(s1.IncomingSupply.Amount.BigInt(), s0.IncomingSupply.Amount.BigInt()).Cmp(a) == 0, "incoming counter grows by the amount")
 			verifAssert(verifAdd(s1.CurrentSupply.Amount.BigInt(), s1.IncomingSupply.Amount.BigInt()).Cmp(lim) <= 0, "H6 current+incoming never exceeds the limit")
+			if e.asset.SupplyLimit.TimeLimited {
+				verifAssert(verifAdd(s1.TimeLimitedCurrentSupply.Amount.BigInt(), s1.IncomingSupply.Amount.BigInt()).Cmp(e.asset.SupplyLimit.TimeBasedLimit.BigInt()) <= 0, "H6 completed-in-period + incoming never exceeds the time-based limit")
+			}
+			verifAssert(s1.TimeLimitedCurrentSupply.Amount.Equal(s0.TimeLimitedCurrentSupply.Amount) && s1.TimeElapsed == s0.TimeElapsed, "create does not move the period counter or clock")
 		} else {
 			verifAssert(verifSub(s1.OutgoingSupply.Amount.BigInt(), s0.OutgoingSupply.Amount.BigInt()).Cmp(a) == 0, "outgoing counter grows by the amount")
 			verifAssert(s1.OutgoingSupply.Amount.BigInt().Cmp(s1.CurrentSupply.Amount.BigInt()) <= 0, "H6 outgoing never exceeds current")
@@ -300,4 +311,67 @@ func VerifC03_Refund() {
 		verifAssert(verifSub(s0.OutgoingSupply.Amount.BigInt(), s1.OutgoingSupply.Amount.BigInt()).Cmp(a) == 0, "outgoing counter released")
 	}
 	verifAssert(s1.CurrentSupply.Amount.Equal(s0.CurrentSupply.Amount), "refund leaves current supply")
+}
+
+// C04 limit period: one begin-block clock update over TWO assets with arbitrary period state.  Each
+// asset's period clock advances by exactly the block-time delta; the period (and the amount completed
+// in it) is reset exactly when the asset's own elapsed time reaches its own period (or the asset has no
+// time-based limit); nothing else in the supply record moves; assets do not influence each other.
+func VerifC04_PeriodClock() {
+	verifExpect("advanced", "reset")
+	e := &hEnv{vEnv: newVEnv(types.StoreKey, hHeight, hDenom, hOther)}
+	e.k = Keeper{storeKey: e.key, cdc: e.cdc, accountKeeper: e.acc, bankKeeper: e.bank, blockedAddrs: e.bank.blocked, authority: vAddr(9).String()}
+	e.deputy = vAddr(5)
+	zero, w := big.NewInt(0), verifPow2(64)
+	denoms := []string{"htltaaa", "htltbbb"}
+	var assets []types.AssetParam
+	type pre struct {
+		elapsed, period int64
+		tl              sdkmath.Int
+		limited         bool
+	}
+	var st []pre
+	hour := int64(time.Hour)
+	for i, d := range denoms {
+		n := string(rune('A' + i))
+		q := pre{elapsed: verifInt64("elapsed" + n), period: verifInt64("period" + n), tl: verifIntIn("tl"+n, zero, w), limited: verifBool("limited" + n)}
+		verifAssume(q.period > 0 && q.period <= 1000*hour && q.elapsed >= 0 && q.elapsed < q.period)
+		st = append(st, q)
+		assets = append(assets, types.AssetParam{Denom: d,
+			SupplyLimit: types.SupplyLimit{Limit: sdkmath.NewIntFromBigInt(w), TimeLimited: q.limited, TimePeriod: time.Duration(q.period), TimeBasedLimit: sdkmath.NewIntFromBigInt(w)},
+			Active:      true, DeputyAddress: e.deputy.String(), FixedFee: sdkmath.NewInt(1), MinSwapAmount: sdkmath.NewInt(1), MaxSwapAmount: sdkmath.NewInt(1000),
+			MinBlockLock: types.MinTimeLock, MaxBlockLock: types.MaxTimeLock})
+	}
+	p := types.Params{AssetParams: assets}
+	verifAssume(p.Validate() == nil)
+	if err := e.k.SetParams(e.ctx, p); err != nil {
+		verifFail("validated params rejected")
+	}
+	c := func(d string, a sdkmath.Int) sdk.Coin { return sdk.Coin{Denom: d, Amount: a} }
+	for i, d := range denoms {
+		e.k.SetAssetSupply(e.ctx, types.NewAssetSupply(c(d, sdkmath.NewInt(3)), c(d, sdkmath.NewInt(2)), c(d, sdkmath.NewInt(7)), c(d, st[i].tl), time.Duration(st[i].elapsed)), d)
+	}
+	// block times with whole seconds (the monotonic-clock bit tricks of time.Time on symbolic nanoseconds are outside the engine)
+	prev, deltaSec := verifInt64("prev"), verifInt64("deltaSec")
+	verifAssume(prev > 0 && prev < 1<<32 && deltaSec >= 0 && deltaSec <= 2000*3600)
+	delta := deltaSec * int64(time.Second)
+	e.k.SetPreviousBlockTime(e.ctx, time.Unix(prev, 0))
+	ctx := e.ctx.WithBlockTime(time.Unix(prev+deltaSec, 0))
+	e.k.UpdateTimeBasedSupplyLimits(ctx)
+	for i, d := range denoms {
+		s1, found := e.k.GetAssetSupply(ctx, d)
+		verifAssert(found, "supply record kept")
+		q := st[i]
+		if q.limited && q.elapsed+delta < q.period {
+			verifCover("advanced")
+			verifAssert(int64(s1.TimeElapsed) == q.elapsed+delta, "period clock advances by exactly the block-time delta")
+			verifAssert(s1.TimeLimitedCurrentSupply.Amount.Equal(q.tl), "amount completed in the period is kept while the period runs")
+		} else {
+			verifCover("reset")
+			verifAssert(s1.TimeElapsed == 0 && s1.TimeLimitedCurrentSupply.Amount.IsZero(), "period and its completed amount restart only when the asset's own period is over")
+		}
+		verifAssert(s1.IncomingSupply.Amount.Equal(sdkmath.NewInt(3)) && s1.OutgoingSupply.Amount.Equal(sdkmath.NewInt(2)) && s1.CurrentSupply.Amount.Equal(sdkmath.NewInt(7)), "the clock update leaves the other counters")
+	}
+	pt, ok := e.k.GetPreviousBlockTime(ctx)
+	verifAssert(ok && pt.Equal(ctx.BlockTime()), "previous block time follows the block time")
 }
